@@ -168,7 +168,9 @@ pub fn install_panic_hook() {
         };
         let loc = info.location().map(|l| format!(" at {}:{}", l.file(), l.line())).unwrap_or_default();
         if msg.starts_with("harness:") {
-            eprintln!("HARNESS ERROR: {msg}{loc}");
+            // a bug in the machinery, never a verdict about the property
+            eprintln!("MACHINERY-ERROR: {msg}{loc}");
+            std::process::exit(2);
         }
         LAST_PANIC.with(|p| *p.borrow_mut() = Some(format!("{msg}{loc}")));
     }));
